@@ -167,8 +167,9 @@ def make_binarizer(code, label, inv):
         return None
     kind = code[0]
     if kind == "thr":
-        tbl = dict(code[1]); dflt = code[2]
-        return lambda arm, r: 1 if r >= tbl.get(inv(arm), dflt) else 0
+        # keyed by the labels themselves, bound by functools.partial: picklable (process-based workers, C19)
+        tbl = {label(a): v for a, v in code[1]}; dflt = code[2]
+        return functools.partial(binz_thr, tbl, dflt)
     # module-level functions bound by functools.partial: picklable (C19), same behaviour as the former lambdas
     if kind == "flip":
         return functools.partial(binz_flip)
@@ -178,6 +179,8 @@ def make_binarizer(code, label, inv):
         return functools.partial(binz_const, code[1])
     raise ValueError(code)
 
+def binz_thr(tbl, dflt, arm, r):
+    return 1 if r >= tbl.get(arm, dflt) else 0
 def binz_flip(arm, r):
     return 1 if r == 0 else 0
 def binz_gt(t, arm, r):
